@@ -220,7 +220,7 @@ impl Ctx {
         let env = std::env::var("VERIF_BUDGET_S").ok().and_then(|s| s.parse::<f64>().ok());
         env.unwrap_or(match self.tier {
             Tier::Quick => 300.0,
-            Tier::Thorough => 1500.0,
+            Tier::Thorough => 3600.0,
         })
     }
     /// don't-care constants derive from the seed (never which shapes are enumerated)
